@@ -629,6 +629,8 @@ package erpc
 // connection is returned only after the per-connection hook accepted it
 //@ func (*Dialer).dialWithRetry
 //@   property C13
+//@   flags libframe frame-unchecked
+//@   modifies allof(type(session)), allof(type(socket.socket)), lockset, waitgroups, ghost.dialAttempts, ghost.lastHookOK, ghost.postDialRuns
 //@   ensures[bounded-attempts] d.redialTimes >= 0 ==> ghost.dialAttempts <= old(ghost.dialAttempts) + 1 + d.redialTimes
 //@   ensures[at-least-one-attempt] ghost.dialAttempts >= old(ghost.dialAttempts) + 1
 //@   ensures[hook-accepted] result.1 == nil && fn != nil ==> ghost.lastHookOK
@@ -674,7 +676,8 @@ package erpc
 //@   ensures[rejected-back-to-redialing] result != nil ==> sess.status == statusRedialing
 
 //@ func (*peer).Dial$2
-//@   property C13
+//@   property C13 C08
+//@   ensures[redialed-session-indexed-again] @C08 result ==> ghost.hubSets == old(ghost.hubSets) + 1
 //@   requires sess != nil && sess.socket != nil && p != nil && p.dialer != nil && p.sessHub != nil
 //@   ensures?[success-is-ok] result ==> sess.status == statusOk
 
@@ -695,10 +698,11 @@ package erpc
 //@   modifies allof(type(callCmd)), waitgroups, channels, mapviews, ghost.callSweeps
 //@   ghostset ghost.callSweeps = old(ghost.callSweeps) + 1
 //@ func (*session).readDisconnected
-//@   property C02
+//@   property C02 C08
+//@   ensures[graceful-close-not-disturbed] @C08 old(s.status) == statusActiveClosing ==> s.status == statusActiveClosing
 //@   flags libframe frame-unchecked
-//@   requires @C02 sessInv(s)
-//@   requires?[session-lock-free] @C02 !held(addr(s.lock))
+//@   requires @C02 @C08 sessInv(s)
+//@   requires?[session-lock-free] @C02 @C08 !held(addr(s.lock))
 //@   modifies allof(type(session)), allof(type(socket.socket)), allof(type(callCmd)), lockset, waitgroups, channels, mapviews, ghost.callSweeps, ghost.disconnectRuns
 //@   ghostset ghost.disconnectRuns = old(ghost.disconnectRuns) + 1
 //@   ensures[pending-calls-swept] @C02 old(s.status) != statusPassiveClosed && old(s.status) != statusActiveClosed && old(s.status) != statusPassiveClosing ==> ghost.callSweeps == old(ghost.callSweeps) + 1
@@ -905,6 +909,19 @@ package erpc
 //@   ensures[no-op-unless-established] !(old(s.status) == statusOk || old(s.status) == statusPreparing) ==> s.status == old(s.status) && ghost.postDisconnectRuns == old(ghost.postDisconnectRuns) && s.didCloseNotify == old(s.didCloseNotify)
 //@   ensures[waits-for-handlers-and-calls] @C07 @C08 old(s.status) == statusOk || old(s.status) == statusPreparing ==> waited(addr(s.graceCtxWaitGroup)) && waited(addr(s.graceCallCmdWaitGroup))
 
+// C08: the reader goes on reading while the session is OK or closing actively
+// (replies to calls issued before Close are still read)
+//@ func (*session).checkStatus
+//@   property C08
+//@   modifies nothing
+//@   ensures[member] result ==> (exists i int :: 0 <= i && i < len(checkList) && s.status == checkList[i])
+//@   ensures[not-member] !result ==> (forall i int :: {checkList[i]} 0 <= i && i < len(checkList) ==> s.status != checkList[i])
+//@   loop 0: invariant[none-so-far] $idx >= -1 && (forall j int :: 0 <= j && j <= $idx ==> checkList[j] != s.status) && stat == s.status
+//@ func (*session).goonRead
+//@   property C08
+//@   modifies nothing
+//@   ensures[reads-while-ok-or-closing-actively] result <==> (s.status == statusOk || s.status == statusActiveClosing)
+
 // status transitions by compare-and-swap: moves to `to` iff the current status is
 // one of the listed source states, otherwise leaves it alone
 //@ func (*session).tryChangeStatus
@@ -940,8 +957,10 @@ package erpc
 //@   ghostset self.#gkeys = store(old(self.#gkeys), key, true)
 //@   ensures[loaded-or-stored] result.1 == old(self.#gkeys[key]) && (result.1 ==> result.0 == old(self.#gvals[key])) && (!result.1 ==> result.0 == value)
 //@   ensures[indexed-sessions-wellformed] result.1 ==> istype(result.0, type(*session)) && sessShape(as(result.0, type(*session))) && as(result.0, type(*session)).peer.sessHub != nil && as(result.0, type(*session)).peer.sessHub.sessions != nil && (as(result.0, type(*session)).didCloseNotify == 0 <==> !chanClosed(as(result.0, type(*session)).closeNotifyCh)) && (as(result.0, type(*session)).didCloseNotify == 0 || as(result.0, type(*session)).didCloseNotify == 1)
+//@ ghost global hubSets int
 //@ func (*SessionHub).set
 //@   property C07
+//@   ghostset ghost.hubSets = old(ghost.hubSets) + 1
 //@   flags libframe frame-unchecked
 //@   requires?[session-wellformed] sh.sessions != nil && sess != nil && sessShape(sess) && sess.peer.sessHub == sh
 //@   modifies allof(type(session)), allof(type(socket.socket)), lockset, waitgroups, channels, mapviews
